@@ -6,6 +6,7 @@ import (
 	"os"
 
 	"verifharness/internal/b2f"
+	"verifharness/internal/lzh"
 	"verifharness/internal/mbox"
 	"verifharness/internal/msgh"
 	"verifharness/internal/posrep"
@@ -14,6 +15,9 @@ import (
 
 var cmds = map[string]func([]string) int{
 	"mbox":          mbox.Main,
+	"lzh-run":       lzh.MainRun,
+	"lzh-judge":     lzh.MainJudge,
+	"lzh-hostile":   lzh.MainHostile,
 	"body":          msgh.MainBody,
 	"msg":           msgh.MainMsg,
 	"b2f-c01":       b2f.MainC01,
